@@ -167,10 +167,6 @@ where
         }
         let range = start..=*range.end();
         let entries = self.raft_log.get_entries_range(range)?;
-        if let Some(last) = entries.last() {
-            self.last_dispatched
-                .fetch_max(last.index, std::sync::atomic::Ordering::AcqRel);
-        }
 
         debug!(
             "[Node-{}] commit handler process batch, length = {}",
@@ -307,11 +303,20 @@ where
                 entries.len()
             );
 
+            // Only what is really handed to the SM worker counts as dispatched: when a config
+            // entry fails to apply, process_batch returns early and the entries after it must be
+            // picked up by the next batch instead of being skipped for good (apply gap).
+            let last_index = entries.last().map(|e| e.index);
+
             // Send entries to SM Worker without waiting for apply
             self.sm_apply_tx.send(entries).map_err(|e| {
                 error!("[Node-{}] SM Worker channel closed: {:?}", self.my_id, e);
                 crate::Error::Fatal(format!("SM Worker channel closed: {e:?}"))
             })?;
+            if let Some(last_index) = last_index {
+                self.last_dispatched
+                    .fetch_max(last_index, std::sync::atomic::Ordering::AcqRel);
+            }
         }
         Ok(())
     }
